@@ -45,17 +45,12 @@ theorem grun_fst_snd (cfg : Cfg σ) (s : St σ) (g : Ghost) (ops : List Op) :
     simp only [grun, run]
     rw [← this]
 
-/-- the roller never reports an error (a fault-free world); needed only in truncate mode -/
-def NoFail (roll : RollFn) (path : Path) : Prop := ∀ fault d e d', roll path fault d ≠ (.error e, d')
-
 structure Inv (cfg : Cfg σ) (arch : Disk → List Bytes) (s : St σ) (g : Ghost) : Prop where
   wf : WF cfg s
   /-- the retained archives are a whole-file suffix of the closed segments -/
   archives : ∃ k, arch s.disk = (g.closed.drop k).map List.flatten
   /-- the active file holds exactly the current segment -/
   active : fileOf cfg s.disk = g.cur.flatten
-  /-- truncate mode: the writer is closed only when the file is gone -/
-  closedGone : cfg.appendMode = false → s.writer = none → s.disk.get? cfg.path = none
 
 theorem drop_map_snoc {α β : Type} (f : α → β) (l : List α) (c : α) (k j : Nat) :
     ∃ k', (((l.drop k).map f) ++ [f c]).drop j = ((l ++ [c]).drop k').map f := by
@@ -70,25 +65,12 @@ theorem drop_map_snoc {α β : Type} (f : α → β) (l : List α) (c : α) (k j
 
 theorem openView_eq_cur (cfg : Cfg σ) (arch : Disk → List Bytes) (s : St σ) (g : Ghost) (inv : Inv cfg arch s g) :
     openView cfg s = g.cur.flatten := by
-  unfold openView
-  cases hw : s.writer with
-  | some w => exact inv.active
-  | none =>
-    cases ha : cfg.appendMode with
-    | true => simpa using inv.active
-    | false =>
-      have := inv.closedGone ha hw
-      have hf : fileOf cfg s.disk = [] := by simp [fileOf, this]
-      rw [← inv.active, hf]
-      rfl
+  rw [openView_of_opened cfg s inv.wf.1]
+  exact inv.active
 
 theorem fileOf_opened {cfg : Cfg σ} {s : St σ} {a : Bytes} (h : Opened cfg s a) : fileOf cfg s.disk = a := by
   obtain ⟨_, _, _, hg, _⟩ := h
   exact fileOf_of_get hg
-
-theorem writer_opened {cfg : Cfg σ} {s : St σ} {a : Bytes} (h : Opened cfg s a) : s.writer ≠ none := by
-  obtain ⟨w, hw, _⟩ := h
-  simp [hw]
 
 /-- `restart`: the new appender finds what the old one left (append mode) or an emptied file -/
 theorem restart_spec (cfg : Cfg σ) (s : St σ) (hwf : WF cfg s) :
@@ -99,15 +81,17 @@ theorem restart_spec (cfg : Cfg σ) (s : St σ) (hwf : WF cfg s) :
     cases hw : s.writer with
     | none => exact ⟨rfl, SameElse.refl cfg _⟩
     | some w =>
-      rcases hwf with h | ⟨a, w', hw', hb, hg, _⟩
+      rcases hwf.2 with h | ⟨a, w', hw', hb, hg, _⟩
       · simp [hw] at h
       · rw [hw] at hw'
         have : w' = w := (Option.some.inj hw').symm
         subst this
         simp only [flushW, hb, List.append_nil]
-        exact ⟨fileOf_of_get (Disk.get?_set_self _ _ _), SameElse.set cfg _ _⟩
-  have h := getWriter_spec cfg { dropWriter cfg s with writer := none, tst := cfg.trig.reinit (dropWriter cfg s).tst (dropWriter cfg s).now } (Or.inl rfl)
-  simp only [openView] at h
+        exact ⟨fileOf_of_get (DiskL.get?_set_self _ _ _), SameElse.set cfg _ _⟩
+  have h := getWriter_spec cfg
+    { dropWriter cfg s with writer := none, tst := cfg.trig.reinit (dropWriter cfg s).tst (dropWriter cfg s).now, opened := false }
+    (Or.inl rfl)
+  simp only [openView, Bool.or_false] at h
   rw [hd.1] at h
   exact ⟨h.1, hd.2.trans h.2.2.1⟩
 
@@ -115,7 +99,7 @@ theorem Inv.restartStep {cfg : Cfg σ} {arch : Disk → List Bytes} {s : St σ} 
     (hframe : ∀ d d', (∀ q, q ≠ cfg.path → d'.get? q = d.get? q) → arch d' = arch d)
     (inv : Inv cfg arch s g) : Inv cfg arch (restart cfg s) (ghostStep cfg g .restart none) := by
   obtain ⟨ho, hse⟩ := restart_spec cfg s inv.wf
-  refine ⟨Or.inr ⟨_, ho⟩, ?_, ?_, fun _ hw => absurd hw (writer_opened ho)⟩
+  refine ⟨WF_restart cfg s, ?_, ?_⟩
   · obtain ⟨k, hk⟩ := inv.archives
     refine ⟨k, ?_⟩
     rw [hframe _ _ hse, hk]
@@ -128,14 +112,15 @@ theorem Inv.restartStep {cfg : Cfg σ} {arch : Disk → List Bytes} {s : St σ} 
     | false => simp
 
 theorem Inv.appendStep {cfg : Cfg σ} {arch : Disk → List Bytes} {s : St σ} {g : Ghost}
-    (hc : RollContract cfg.roll cfg.path arch) (hmode : cfg.appendMode = true ∨ NoFail cfg.roll cfg.path)
+    (hc : RollContract cfg.roll cfg.path arch)
     (inv : Inv cfg arch s g) (r : Rec) (f : Option Nat) :
     Inv cfg arch (append cfg s r (faultFn f)).2 (ghostStep cfg g (.append r f) (some (append cfg s r (faultFn f)).1)) := by
   have hov := openView_eq_cur cfg arch s g inv
   obtain ⟨k, hk⟩ := inv.archives
+  have hwf' := (append_wf cfg s r (faultFn f) inv.wf).1
   cases hpre : cfg.trig.pre with
   | true =>
-    obtain ⟨_, _, _, hno, herr, hyes⟩ := append_pre_spec cfg s r (faultFn f) inv.wf hpre _ _
+    obtain ⟨_, _, _, _, hno, herr, hyes⟩ := append_pre_spec cfg s r (faultFn f) inv.wf hpre _ _
       (append cfg s r (faultFn f)).1 (append cfg s r (faultFn f)).2 rfl rfl rfl
     cases hans : (cfg.trig.fire s.tst (openView cfg s).length s.now).1 with
     | no =>
@@ -143,7 +128,7 @@ theorem Inv.appendStep {cfg : Cfg σ} {arch : Disk → List Bytes} {s : St σ} {
       have hg : ghostStep cfg g (.append r f) (some (append cfg s r (faultFn f)).1) = { g with cur := g.cur ++ [encBytes r] } := by
         simp [ghostStep, hpre, hro, hr]
       rw [hg]
-      refine ⟨Or.inr ⟨_, ho⟩, ⟨k, by rw [hc.frame _ _ hse, hk]⟩, ?_, fun _ hw => absurd hw (writer_opened ho)⟩
+      refine ⟨hwf', ⟨k, by rw [hc.frame _ _ hse, hk]⟩, ?_⟩
       rw [fileOf_opened ho, hov]
       simp
     | err =>
@@ -151,7 +136,7 @@ theorem Inv.appendStep {cfg : Cfg σ} {arch : Disk → List Bytes} {s : St σ} {
       have hg : ghostStep cfg g (.append r f) (some (append cfg s r (faultFn f)).1) = g := by
         simp [ghostStep, hpre, hro, hr]
       rw [hg]
-      refine ⟨Or.inr ⟨_, ho⟩, ⟨k, by rw [hc.frame _ _ hse, hk]⟩, ?_, fun _ hw => absurd hw (writer_opened ho)⟩
+      refine ⟨hwf', ⟨k, by rw [hc.frame _ _ hse, hk]⟩, ?_⟩
       rw [fileOf_opened ho, hov]
     | yes =>
       obtain ⟨d1, hg1, hse1, h⟩ := hyes hans
@@ -159,33 +144,28 @@ theorem Inv.appendStep {cfg : Cfg σ} {arch : Disk → List Bytes} {s : St σ} {
       · have hroll : cfg.roll cfg.path (faultFn f) d1 = (.ok x, (cfg.roll cfg.path (faultFn f) d1).2) := by
           rw [← hx]
         obtain ⟨hgone, j, harch⟩ := hc.ok _ d1 x _ _ hroll hg1
-        have hfile : (if cfg.appendMode then fileOf cfg (cfg.roll cfg.path (faultFn f) d1).2 else []) = [] := by
-          split
-          · simp [fileOf, hgone]
-          · rfl
+        have hfile : fileOf cfg (cfg.roll cfg.path (faultFn f) d1).2 = [] := by simp [fileOf, hgone]
         rw [hfile] at ho
         have hg : ghostStep cfg g (.append r f) (some (append cfg s r (faultFn f)).1) = { closed := g.closed ++ [g.cur], cur := [encBytes r] } := by
           simp [ghostStep, hpre, hro]
         rw [hg]
-        refine ⟨Or.inr ⟨_, ho⟩, ?_, ?_, fun _ hw => absurd hw (writer_opened ho)⟩
+        refine ⟨hwf', ?_, ?_⟩
         · rw [hc.frame _ _ hse, harch, hc.frame _ _ hse1, hk, hov]
           exact drop_map_snoc List.flatten g.closed g.cur k j
         · rw [fileOf_opened ho]
           simp
       · have hroll : cfg.roll cfg.path (faultFn f) d1 = (.error e, (cfg.roll cfg.path (faultFn f) d1).2) := by
           rw [← he]
-        rcases hmode with ham | hnf
-        · obtain ⟨hsame, j, harch⟩ := hc.err _ d1 e _ hroll
-          have hg : ghostStep cfg g (.append r f) (some (append cfg s r (faultFn f)).1) = g := by
-            simp [ghostStep, hpre, hro, hr]
-          rw [hg]
-          refine ⟨Or.inl hw, ⟨k + j, ?_⟩, ?_, fun ha _ => by rw [ham] at ha; cases ha⟩
-          · rw [hd, harch, hc.frame _ _ hse1, hk, ← List.map_drop, List.drop_drop]
-          · rw [hd, fileOf, hsame, hg1, hov]
-            rfl
-        · exact absurd hroll (hnf _ _ _ _)
+        obtain ⟨hsame, j, harch⟩ := hc.err _ d1 e _ hroll
+        have hg : ghostStep cfg g (.append r f) (some (append cfg s r (faultFn f)).1) = g := by
+          simp [ghostStep, hpre, hro, hr]
+        rw [hg]
+        refine ⟨hwf', ⟨k + j, ?_⟩, ?_⟩
+        · rw [hd, harch, hc.frame _ _ hse1, hk, ← List.map_drop, List.drop_drop]
+        · rw [hd, fileOf, hsame, hg1, hov]
+          rfl
   | false =>
-    obtain ⟨_, _, _, hno, herr, hyes⟩ := append_post_spec cfg s r (faultFn f) inv.wf hpre _ _
+    obtain ⟨_, _, _, _, hno, herr, hyes⟩ := append_post_spec cfg s r (faultFn f) inv.wf hpre _ _
       (append cfg s r (faultFn f)).1 (append cfg s r (faultFn f)).2 rfl rfl rfl
     cases hans : (cfg.trig.fire s.tst (openView cfg s ++ encBytes r).length s.now).1 with
     | no =>
@@ -193,7 +173,7 @@ theorem Inv.appendStep {cfg : Cfg σ} {arch : Disk → List Bytes} {s : St σ} {
       have hg : ghostStep cfg g (.append r f) (some (append cfg s r (faultFn f)).1) = { g with cur := g.cur ++ [encBytes r] } := by
         simp [ghostStep, hpre, hro]
       rw [hg]
-      refine ⟨Or.inr ⟨_, ho⟩, ⟨k, by rw [hc.frame _ _ hse, hk]⟩, ?_, fun _ hw => absurd hw (writer_opened ho)⟩
+      refine ⟨hwf', ⟨k, by rw [hc.frame _ _ hse, hk]⟩, ?_⟩
       rw [fileOf_opened ho, hov]
       simp
     | err =>
@@ -201,7 +181,7 @@ theorem Inv.appendStep {cfg : Cfg σ} {arch : Disk → List Bytes} {s : St σ} {
       have hg : ghostStep cfg g (.append r f) (some (append cfg s r (faultFn f)).1) = { g with cur := g.cur ++ [encBytes r] } := by
         simp [ghostStep, hpre, hro]
       rw [hg]
-      refine ⟨Or.inr ⟨_, ho⟩, ⟨k, by rw [hc.frame _ _ hse, hk]⟩, ?_, fun _ hw => absurd hw (writer_opened ho)⟩
+      refine ⟨hwf', ⟨k, by rw [hc.frame _ _ hse, hk]⟩, ?_⟩
       rw [fileOf_opened ho, hov]
       simp
     | yes =>
@@ -213,7 +193,7 @@ theorem Inv.appendStep {cfg : Cfg σ} {arch : Disk → List Bytes} {s : St σ} {
         have hg : ghostStep cfg g (.append r f) (some (append cfg s r (faultFn f)).1) = { closed := g.closed ++ [g.cur ++ [encBytes r]], cur := [] } := by
           simp [ghostStep, hpre, hro]
         rw [hg]
-        refine ⟨Or.inl hw, ?_, ?_, fun _ _ => by rw [hd]; exact hgone⟩
+        refine ⟨hwf', ?_, ?_⟩
         · rw [hd, harch, hc.frame _ _ hse1, hk, hov]
           have := drop_map_snoc List.flatten g.closed (g.cur ++ [encBytes r]) k j
           simpa using this
@@ -221,25 +201,23 @@ theorem Inv.appendStep {cfg : Cfg σ} {arch : Disk → List Bytes} {s : St σ} {
           simp [fileOf, hgone]
       · have hroll : cfg.roll cfg.path (faultFn f) d1 = (.error e, (cfg.roll cfg.path (faultFn f) d1).2) := by
           rw [← he]
-        rcases hmode with ham | hnf
-        · obtain ⟨hsame, j, harch⟩ := hc.err _ d1 e _ hroll
-          have hg : ghostStep cfg g (.append r f) (some (append cfg s r (faultFn f)).1) = { g with cur := g.cur ++ [encBytes r] } := by
-            simp [ghostStep, hpre, hro]
-          rw [hg]
-          refine ⟨Or.inl hw, ⟨k + j, ?_⟩, ?_, fun ha _ => by rw [ham] at ha; cases ha⟩
-          · rw [hd, harch, hc.frame _ _ hse1, hk, ← List.map_drop, List.drop_drop]
-          · rw [hd, fileOf, hsame, hg1, hov]
-            simp
-        · exact absurd hroll (hnf _ _ _ _)
+        obtain ⟨hsame, j, harch⟩ := hc.err _ d1 e _ hroll
+        have hg : ghostStep cfg g (.append r f) (some (append cfg s r (faultFn f)).1) = { g with cur := g.cur ++ [encBytes r] } := by
+          simp [ghostStep, hpre, hro]
+        rw [hg]
+        refine ⟨hwf', ⟨k + j, ?_⟩, ?_⟩
+        · rw [hd, harch, hc.frame _ _ hse1, hk, ← List.map_drop, List.drop_drop]
+        · rw [hd, fileOf, hsame, hg1, hov]
+          simp
 
 theorem Inv.step {cfg : Cfg σ} {arch : Disk → List Bytes} {s : St σ} {g : Ghost}
-    (hc : RollContract cfg.roll cfg.path arch) (hmode : cfg.appendMode = true ∨ NoFail cfg.roll cfg.path)
+    (hc : RollContract cfg.roll cfg.path arch)
     (inv : Inv cfg arch s g) (op : Op) :
     Inv cfg arch (applyOp cfg s op).2 (ghostStep cfg g op (applyOp cfg s op).1) := by
   cases op with
-  | append r f => exact inv.appendStep hc hmode r f
+  | append r f => exact inv.appendStep hc r f
   | restart => exact inv.restartStep hc.frame
-  | tick dt => exact ⟨inv.wf, inv.archives, inv.active, inv.closedGone⟩
+  | tick dt => exact ⟨inv.wf, inv.archives, inv.active⟩
 
 /-- the ghost the first appender starts with: every pre-existing archive is one opaque closed
 segment, the pre-existing active content (append mode) is the first item of the current one -/
@@ -249,12 +227,12 @@ def Ghost.init (cfg : Cfg σ) (arch : Disk → List Bytes) (d : Disk) : Ghost :=
 theorem Inv.atInit (cfg : Cfg σ) (arch : Disk → List Bytes)
     (hframe : ∀ d d', (∀ q, q ≠ cfg.path → d'.get? q = d.get? q) → arch d' = arch d)
     (d : Disk) (t0 : σ) (now : Nat) : Inv cfg arch (init cfg d t0 now) (Ghost.init cfg arch d) := by
-  have h := getWriter_spec cfg { disk := d, writer := none, tst := cfg.trig.reinit t0 now, now := now } (Or.inl rfl)
+  have h := getWriter_spec cfg { disk := d, writer := none, tst := cfg.trig.reinit t0 now, now := now, opened := false } (Or.inl rfl)
   have ho : Opened cfg (init cfg d t0 now) (if cfg.appendMode then fileOf cfg d else []) := by
     simpa [openView, init, build] using h.1
   have hse : SameElse cfg d (init cfg d t0 now).disk := by
     simpa [init, build] using h.2.2.1
-  refine ⟨Or.inr ⟨_, ho⟩, ⟨0, ?_⟩, ?_, fun _ hw => absurd hw (writer_opened ho)⟩
+  refine ⟨WF_init cfg d t0 now, ⟨0, ?_⟩, ?_⟩
   · rw [hframe _ _ hse]
     simp [Ghost.init, Function.comp_def]
   · rw [fileOf_opened ho]
@@ -262,12 +240,12 @@ theorem Inv.atInit (cfg : Cfg σ) (arch : Disk → List Bytes)
     split <;> simp
 
 theorem Inv.history {cfg : Cfg σ} {arch : Disk → List Bytes}
-    (hc : RollContract cfg.roll cfg.path arch) (hmode : cfg.appendMode = true ∨ NoFail cfg.roll cfg.path)
+    (hc : RollContract cfg.roll cfg.path arch)
     (ops : List Op) {s : St σ} {g : Ghost} (inv : Inv cfg arch s g) :
     Inv cfg arch (grun cfg s g ops).2.1 (grun cfg s g ops).2.2 := by
   induction ops generalizing s g with
   | nil => exact inv
-  | cons op ops ih => exact ih (inv.step hc hmode op)
+  | cons op ops ih => exact ih (inv.step hc op)
 
 end Log4rs.Rolling
 
